@@ -72,7 +72,7 @@ func c05Check(c scriptCase) []rep.Finding { return lockstep(c, nil).fs }
 
 func init() {
 	p := register(&Prop{ID: "C05", Level: "model_checking",
-		Rule: "explicit-state exploration of the real interpreter in lockstep with a reference model of the BSV script rules (certified on all 1438 node vectors of script_tests.json, verdict and error name): after every instruction the AfterStep snapshot (data and alt stack) must equal the reference's, and the final verdict must agree. Spaces: (1) operand grid: every opcode byte 0x00..0xff x every tuple of edge operands (arity 1 and 2 over the full edge set, arity 3 over a 12-value subset; shift counts 0..8n+1 for operand lengths 0..3) x both eras x covering flag sets, and all 512 subsets of the nine non-signature flags for the flag-sensitive opcodes, CLTV/CSV against 7x3 transaction contexts; (2) every byte string of length<=2 (quick) / <=3 (thorough) as locking script x 4 seed unlocking scripts x 2 eras (+MINIMALDATA); (3) breadth-first program exploration with canonical-state deduplication over a 15-symbol control-flow alphabet (incl. a non-minimal push) (depth 7/8) and a 51-symbol mixed alphabet (stack, alt, splice, bitwise, shift, arithmetic, hash opcodes, 8 pushes) (depth 3/4) from empty and seeded stacks; (4) P2SH / limit templates. Scripts whose execution reaches a signature opcode are left to C06. states = distinct canonical machine states (stacks, condition stack, era+flags) seen in snapshots; transitions = instructions executed in lockstep; traces = executions compared",
+		Rule: "explicit-state exploration of the real interpreter in lockstep with a reference model of the BSV script rules (certified on all 1438 node vectors of script_tests.json, verdict and error name): after every instruction the AfterStep snapshot (data and alt stack) must equal the reference's, and the final verdict must agree. Spaces: (1) operand grid: every opcode byte 0x00..0xff x every tuple of edge operands (arity 1 and 2 over the full edge set, arity 3 over a 12-value subset; shift counts 0..8n+1 for operand lengths 0..3) x both eras x covering flag sets, and all 512 subsets of the nine non-signature flags for the flag-sensitive opcodes, CLTV/CSV against 7x3 transaction contexts; (2) every byte string of length<=2 (quick) / <=3 (thorough) as locking script x 4 seed unlocking scripts x 2 eras (+MINIMALDATA); (3) breadth-first program exploration with canonical-state deduplication over a 15-symbol control-flow alphabet (incl. a non-minimal push) (depth 7/8) and a 51-symbol mixed alphabet (stack, alt, splice, bitwise, shift, arithmetic, hash opcodes, 8 pushes) (depth 3/4) from empty and seeded stacks; (3b) the same search on the unlocking side (control-flow alphabet + alt-stack, DUP, CODESEPARATOR; depth 4/5) against 7 fixed locking scripts, deciding what may cross the script boundary; (4) P2SH / limit templates. Scripts whose execution reaches a signature opcode are left to C06. states = distinct canonical machine states (stacks, condition stack, era+flags) seen in snapshots; transitions = instructions executed in lockstep; traces = executions compared",
 	})
 	NewSpace(p, "grid", c05Check)
 	NewSpace(p, "bytes", c05Check)
@@ -109,6 +109,7 @@ func init() {
 		c05Grid(r, p, chk, thorough)
 		c05Bytes(r, p, chk, thorough)
 		c05BFS(r, p, chk, thorough)
+		c05UnlockBFS(r, p, chk, thorough)
 		c05Templates(r, p, chk, thorough)
 		r.Note("states", r.DistinctCount())
 		r.Note("transitions", st.transitions)
@@ -424,4 +425,65 @@ func c05Templates(r *rep.Run, p *Prop, chk func(scriptCase) []rep.Finding, thoro
 	(&Space[scriptCase]{P: p, Name: "templates", Check: chk}).Slice(r, cases)
 	r.Note("template_cases", len(cases))
 	r.Sample("templates", cases[3])
+}
+
+
+// c05UnlockBFS explores programs on the UNLOCKING side against a few fixed locking
+// scripts: what must not cross the script boundary (alt stack, open conditionals, an
+// early return) is decided here.
+func c05UnlockBFS(r *rep.Run, p *Prop, chk func(scriptCase) []rep.Finding, thorough bool) {
+	syms := append(ctlAlphabet(), []byte{0x6b}, []byte{0x6c}, []byte{0x76}, []byte{0xab})
+	locks := [][]byte{{0x51}, {0x6c}, {0x68, 0x51}, {0x75, 0x51}, {0x67, 0x51, 0x68}, {}, {0x6a}}
+	depth := 4
+	if thorough {
+		depth = 5
+	}
+	states, trans := 0, 0
+	for _, f := range []uint32{0, fGenesis, fGenesis | fP2SH | fClean, fPushOnly} {
+		seen := map[string]struct{}{}
+		frontier := [][]int{{}}
+		for d := 0; d < depth && len(frontier) > 0; d++ {
+			var cases []scriptCase
+			var paths [][]int
+			for _, path := range frontier {
+				for si := range syms {
+					np := append(append([]int(nil), path...), si)
+					var u []byte
+					for _, k := range np {
+						u = append(u, syms[k]...)
+					}
+					paths = append(paths, np)
+					for _, l := range locks {
+						cases = append(cases, scriptCase{Unlock: u, Lock: l, Flags: f})
+					}
+				}
+			}
+			(&Space[scriptCase]{P: p, Name: "bfs", Check: chk}).Slice(r, cases)
+			trans += len(cases)
+			var next [][]int
+			for _, np := range paths {
+				var u []byte
+				var syn [][]byte
+				for _, k := range np {
+					u = append(u, syms[k]...)
+					syn = append(syn, syms[k])
+				}
+				c := scriptCase{Lock: u, Flags: f}
+				rt, amt := c.ctx()
+				key, alive := scriptref.Explore(nil, u, f&^fPushOnly, &scriptref.TxCtx{Tx: rt, Idx: 0, Amount: amt})
+				if !alive {
+					continue
+				}
+				key += fmt.Sprintf("|syn%d", syntacticNesting(syn))
+				if _, ok := seen[key]; !ok {
+					seen[key] = struct{}{}
+					next = append(next, np)
+				}
+			}
+			frontier = next
+		}
+		states += len(seen)
+	}
+	r.Note("unlock_side_bfs_states", states)
+	r.Note("unlock_side_bfs_transitions", trans)
 }
